@@ -91,6 +91,9 @@ m('C02', 'model', "                    lowBound = 0, \n                    upBou
 m('C14', 'solver', "            self.model.pulp_status = pulp_status", "            self.model.pulp_status = 'Optimal'", 'stored status is not the status of the run')
 m('C14', 'solver', "self.model.time_limit = timeLimit", "self.model.time_limit = None", 'time limit not stored')
 m('C18', 'lp_solver', '        self.prob = LpProblem("Student-Project-Allocator", LpMaximize)\n', '        self.prob = getattr(self.model, "prob", None) or LpProblem("Student-Project-Allocator", LpMaximize)\n        self.model.prob = self.prob\n', 'the problem object is reused by a second solve')
+m('C01', 'model', "                self.project_lists[st_pr_pair.project_index].append(st_pr_pair)\n", "                self.project_lists[st_pr_pair.project_index].append(st_pr_pair)\n                self.project_lists[st_pr_pair.project_index].append(st_pr_pair)\n", 'a pair listed twice under its project: same element set, double weight in the capacity constraint')
+m('C01', 'model', "                if pair.lp_var.varValue:\n                    pair_assignments.append(pair)\n        return pair_assignments", "                if pair.lp_var.varValue:\n                    pair_assignments.append(pair_row[0])\n        return pair_assignments", 'the wrong pair of the row is reported')
+m('C10', 'model', "                (self.lecturer_lists[st_pr_pair.lecturer_index]\n                    .append(st_pr_pair))", "                (self.lecturer_lists[st_pr_pair.lecturer_index]\n                    .append(st_pr_pair))\n                if st_pr_pair.rank_student == 1: self.lecturer_lists[st_pr_pair.lecturer_index].append(st_pr_pair)", 'first choices listed twice under their lecturer')
 # ---- C18
 m('C18', 'model', "        results += self.info_string + '\\n'", "        results += self.info_string + '\\n'\n        self.info_string = self.info_string + ' '", 'getter appends to a field')
 m('C18', 'model', "        max_rank = self._get_max_rank()\n        rank_allocations = [0] * max_rank", "        max_rank = self._get_max_rank()\n        self.cached_max_rank = max_rank\n        rank_allocations = [0] * max_rank", 'getter caches into a new field')
